@@ -26,10 +26,11 @@ def currentVariant : Variant :=
 /-! ### grammar -> abstract values -/
 
 def mkUrl (proto : Proto) (target : Nat) (path : String) (parseOk := true) (isIP := true)
-    (dnsOk := true) (hasPort := true) (hasNs := true) (svcFound := true) : UrlAnn :=
-  .val { parseOk, proto, isIP, dnsOk, hasPort, hasNs, svcFound, target, path }
+    (dnsOk := true) (hasPort := true) (hasNs := true) (nsOk := true) (svcFound := true) : UrlAnn :=
+  .val { parseOk, proto, isIP, dnsOk, hasPort, hasNs, nsOk, svcFound, target, path }
 
-def urlOf : String → Option UrlAnn
+/-- `xns`: global `cross-namespace-services: allow` -/
+def urlOf (xns : Bool) : String → Option UrlAnn
   | "-" => some .absent
   | "e" => some .empty
   | "h1" => some (mkUrl .http 1 "/auth")                 -- http://10.0.0.1/auth
@@ -43,8 +44,8 @@ def urlOf : String → Option UrlAnn
   | "sm" => some (mkUrl .svc 0 "/auth" (svcFound := false))   -- svc://missing:8080/auth
   | "sp" => some (mkUrl .svc 0 "/auth" (hasPort := false))    -- svc://authsvc/auth
   | "sx" => some (mkUrl .svc 0 "/auth" (svcFound := false))   -- svc://authsvc:9999/auth
-  | "so" => some (mkUrl .svc 6 "/auth")                  -- svc://other/authsvc2:8080/auth
-  | "sn" => some (mkUrl .svc 0 "/auth" (svcFound := false))   -- svc://other/nope:8080/auth
+  | "so" => some (mkUrl .svc 6 "/auth" (nsOk := xns))    -- svc://other/authsvc2:8080/auth
+  | "sn" => some (mkUrl .svc 0 "/auth" (nsOk := xns) (svcFound := false))   -- svc://other/nope:8080/auth
   | "bp" => some (mkUrl .other 0 "/auth")                -- bad://10.0.0.1/auth
   | "mf" => some (mkUrl .http 0 "" (parseOk := false))   -- ::malformed
   | "sq" => some (mkUrl .http 0 "" (parseOk := false))   -- http://10.0.0.1/a b
@@ -100,7 +101,7 @@ def oauthOf (ings : List IngTok) : String → Option OAuthAnn
   | "u" | "e" => some (.val false false "/oauth2" "")
   | _ => none
 
-def pathOf (ings : List IngTok) (g : IngTok) : Option PathIn := do
+def pathOf (xns : Bool) (ings : List IngTok) (g : IngTok) : Option PathIn := do
   let pn ← pathName g.path
   let _ ← svcName g.svc
   let hm ← (match g.mtch with | "b" => some "beg" | "p" => some "dir" | "e" => some "str" | _ => none)
@@ -108,25 +109,30 @@ def pathOf (ings : List IngTok) (g : IngTok) : Option PathIn := do
   let sg ← (match g.signin with | "-" => some false | "s" => some true | _ => none)
   pure { host := g.host, backend := g.svc, ord := g.host * 16 + g.path, key := key, hamatch := hm,
          sub := if g.mtch = "e" then key else key ++ "/sub",
-         url := ← urlOf g.url, plc := ← plcOf g.plc, oauth := ← oauthOf ings g.oauth, signin := sg }
+         url := ← urlOf xns g.url, plc := ← plcOf g.plc, oauth := ← oauthOf ings g.oauth, signin := sg }
 
-def parseGlob (s : String) : Option (Bool × Bool × Int × Int) :=
+def parseRange (r : List Char) : Option (Int × Int) :=
+  match String.ofList r with
+  | "d" => some (portBase, 14499)
+  | "i" => some (0, -1)
+  | n => n.toNat?.map fun k => (portBase, portBase + (k : Int) - 1)
+
+/-- `x<0|1>l<0|1>[c<0|1>]r<rng>`: IsExternal, external-has-lua, cross-namespace-services allow, range -/
+def parseGlob (s : String) : Option (Bool × Bool × Bool × Int × Int) :=
+  let bit (c : Char) : Option Bool := if c = '0' then some false else if c = '1' then some true else none
   match s.toList with
-  | 'x' :: x :: 'l' :: l :: 'r' :: r =>
-    let rng : Option (Int × Int) :=
-      match String.ofList r with
-      | "d" => some (portBase, 14499)
-      | "i" => some (0, -1)
-      | n => n.toNat?.map fun k => (portBase, portBase + (k : Int) - 1)
-    match rng with
-    | some (rs, re) => if (x = '0' ∨ x = '1') ∧ (l = '0' ∨ l = '1') then some (x = '1', l = '1', rs, re) else none
-    | none => none
+  | 'x' :: x :: 'l' :: l :: 'c' :: c :: 'r' :: r => do
+    let (rs, re) ← parseRange r
+    pure (← bit x, ← bit l, ← bit c, rs, re)
+  | 'x' :: x :: 'l' :: l :: 'r' :: r => do
+    let (rs, re) ← parseRange r
+    pure (← bit x, ← bit l, false, rs, re)
   | _ => none
 
 def parseWorld (glob ings : String) : Option World := do
-  let (x, l, rs, re) ← parseGlob glob
+  let (x, l, xns, rs, re) ← parseGlob glob
   let toks ← (ings.splitOn ",").mapM parseIng
-  let ps ← toks.mapM (pathOf toks)
+  let ps ← toks.mapM (pathOf xns toks)
   pure { isExternal := x, hasLua := l, rangeStart := rs, rangeEnd := re, paths := ps }
 
 /-! ### output -/
